@@ -22,7 +22,37 @@ def to_py(v):
         return float(v)
     if isinstance(v, np.integer):
         return int(v)
+    if type(v) is Checked:
+        return v.view(np.ndarray)
     return v
+
+
+class KernelIndexError(Exception):
+    """an index outside the buffer: undefined behaviour under boundscheck=False / wraparound=False"""
+
+
+class Checked(np.ndarray):
+    """ndarray view that refuses what C would not forgive: negative or out-of-range integer indices"""
+
+    def _chk(self, k):
+        if isinstance(k, (int, np.integer)) and not isinstance(k, bool):
+            if k < 0 or k >= self.shape[0]:
+                raise KernelIndexError("index %d outside buffer of length %d" % (k, self.shape[0]))
+        elif isinstance(k, tuple):
+            for d, kk in enumerate(k):
+                if isinstance(kk, (int, np.integer)) and (kk < 0 or kk >= self.shape[d]):
+                    raise KernelIndexError("index %d outside axis %d of length %d" % (kk, d, self.shape[d]))
+
+    def __getitem__(self, k):
+        self._chk(k)
+        return np.ndarray.__getitem__(self, k)
+
+    def __setitem__(self, k, v):
+        self._chk(k)
+        np.ndarray.__setitem__(self, k, v)
+
+
+AUDIT = [False]
 
 
 def as_memview(a, nd, ty):
@@ -36,6 +66,8 @@ def as_memview(a, nd, ty):
         raise ValueError("Buffer dtype mismatch, expected %r but got %r" % (ty, str(a.dtype)))
     if a.ndim != nd:
         raise ValueError("Buffer has wrong number of dimensions (expected %d, got %d)" % (nd, a.ndim))
+    if AUDIT[0] and type(a) is not Checked:
+        return a.view(Checked)
     return a
 
 
